@@ -966,3 +966,9 @@ def run(S):
     S.rule('R-SNAP', 'iscan_findnext: every rank / count lookup uses the local permutation snapshot (shared with C04)')
     snap_rule(S, S.facts().one(Y + 'iscan_findnext'), 'R-SNAP')
     rule_eq(S)
+    # mechanisms this property rests on (checks/shared.py)
+    from checks import shared
+    shared.version_word(S)
+    shared.permutation_word(S)
+    shared.descent(S)
+    shared.key_order(S)
